@@ -1,9 +1,56 @@
 import os
 SOLVER = os.environ.get("C12_SOLVER", "cadical")
 
-META = {"bounds": "", "outside": "", "assumptions": [], "harness_functions": ["harness", "v_alloc", "v_buf", "v_reallocarray", "memchr", "memrchr", "memmem", "explicit_bzero"]}
+META = {
+    "bounds": "every input byte symbolic, every buffer an exactly sized heap object, lengths/capacities concrete per job. "
+              "base64_encode/decode/decode_fmt/en_copy: source 0..9 bytes (thorough 0..13), every capacity 0..required+1; "
+              "cvt_bin2hex/cvt_hex2bin: 0..6 (10) bytes, every capacity; calc_*sptab*, buf2args (max_args 1..2(3)), "
+              "buf_get_next_line (any previous line; iteration from NULL), data_xor8, memxorbuf, yn_set_flag32: 0..6 (10) bytes; "
+              "mem_chr/rchr/find (+_off/_ptr), mem_cmp*/mem_to_lower/upper/mem_dup2/realloc_items: 0..5 (8) bytes, needles 1..2 (0..3); "
+              "mem_find_stream: chunk/pattern (1,1) (1,2) (2,1) (2,2) (3,1) [(1,3) (3,2) thorough], any carried state; "
+              "20 str2num + 20 strh2num parsers: 0 and 5 (0..22) arbitrary bytes; utf8_decode: 0..4 (6) bytes, capacities {0,1,L,L+1}; "
+              "asn_parse: 0..8 (12) bytes, any offset, any NULL out-pointers; crc32 (8 variants + 4/8-bit kernels): 0,1,3,63,64,65 bytes; "
+              "xml_encode: 1..2 (0..3) bytes, xml_decode: 4..5 (1,4..7) bytes, capacities around smallest/largest required size (thorough: all); "
+              "xml_get_val_arr/_ns_arr: 2..3 (1..5) bytes, 1 (1..2) one-byte tag names, call + resumed call; "
+              "ini_buf_parse/calc_size/gen/destroy: 1..2 input bytes, capacities {0,3}/{4} (thorough 0..7); "
+              "bt_en_decode: body on 0..4 (0..7) bytes with nested calls bound to a contract stub (induction on nesting depth), "
+              "plus inputs with <= 1 container byte 3 (3..6) bytes, plus the 22-byte near-SIZE_MAX string length shape once its KF is lifted",
+    "outside": "xml_get_val_*_args / xml_calc_tag_count_args variadic wrappers (only their callee xml_get_val_arr is executed; the "
+               "termination argument for the counting loop is the progress assertion on next_pos); mem_replace_arr with other rule "
+               "sets than the five XML entities and with repl_count > 31 (tmp_arr path); mem_find_stream beyond the listed shapes "
+               "(goto-built loops: CBMC's unwinding assertions do not pass; [measured] L=2,N=3 fails at bound 5 after 112 s); "
+               "bt_dict_find / bt_en_free and walking a decoded tree (harness code exists as FN=2 in bt.c; CBMC ran out of 8-10 GB on the "
+               "union-of-pointers node type even for 1 input byte), bt_en_decode by direct recursion (no verdict in 400 s at 3 bytes); "
+               "INI inputs longer than 2 bytes (LEN 3: no verdict in 300 s / 7 GB), ini_val_set and the rest of the INI store (C17); "
+               "fmt_as_uptime (snprintf), mapalloc; non-default builds of al/os.h (own memrchr/memmem/reallocarray fallbacks); "
+               "signed overflow / shifts inside the digit accumulation of str2num/strh2num (value semantics are C14); "
+               "forming an out-of-range pointer value without accessing it (CBMC 'pointer relation' check) in bt_en_decode's length test "
+               "is excluded by prop_exclude in the bt jobs - its wrap-around consequence is the bt-strlen job; likewise the relational "
+               "compare of *next_pos == NULL with xml_data (the documented 'start from the beginning' convention) in the xml-get jobs; "
+               "cvt_hex2bin and base64_decode_fmt (dst shorter than src) refuse without reporting a size: only 'no overflow, "
+               "LEN/2 resp. the rounded-up estimate suffices' is decided; allocation failure paths",
+    "assumptions": [
+        "malloc/calloc/realloc/reallocarray never fail (v_alloc, v_calloc, v_reallocarray assume non-NULL; bt/ini jobs pass --no-malloc-may-fail)",
+        "lib/libc_models.h bodies for memchr/memrchr/memmem (CBMC only); libc_stubs.h: reallocarray = overflow check + realloc; "
+        "calloc/reallocarray case-split on the requested size so that every object has a concrete exact size (CBMC only)",
+        "spec stub for realloc_items (libc_stubs.h, C12_SPEC_REALLOC_ITEMS, used by inibuf.c and bt.c under CBMC): array of exactly "
+        "count+1 items, old items kept, new zeroed; the real realloc_items is decided by the mem-cmp-* jobs",
+        "bt.c: nested bt_en_decode calls are a contract stub (K: success => fresh node, type 0..3, raw span inside the given span, "
+        "2 <= consumed <= size, strings < size, bytes consistent with the leading byte; failure => NULL); the job proves K for the "
+        "real body, so K holds for every nesting depth by induction; gen.py renames only the definition line of bt_en_decode",
+        "xmlcodec.c required-size oracle: encode 1 byte -> 1/4/5/6; decode left-to-right entity scan (entities are prefix-free)",
+        "known-finding blocking clauses while the KF_ defines are in force (each described in findings/*.md and in the harness): "
+        "KF_B64_ENC_NUL, KF_B64_DEC_NUL (capacity == required size skipped), KF_BUF2ARGS_NUL (buf[buf_size] part of the object), "
+        "KF_ASN_TAG_INDEX (universal class long-form tag >= 32 excluded), KF_ASN_SHORT_LEN (data span / next offset not checked), "
+        "KF_MEM_REPLACE_BOUNDS (xml_encode/xml_decode only for capacity >= required + 6), KF_BT_END_READ (one more readable byte, not 'e'), "
+        "KF_BT_DICT_KEY (raw span of dictionaries not checked), KF_BT_LEN_WRAP (< 20 length digits), "
+        "KF_XML_GET_VAL (inputs without '/', not ending in '<', no blank after '<', spare tag slot)",
+    ],
+    "harness_functions": ["harness", "v_alloc", "v_buf", "v_calloc", "v_reallocarray", "spec_realloc_items", "memchr", "memrchr", "memmem",
+                          "explicit_bzero", "ent_at", "chk_node", "bt_en_decode"],
+}
 
-KF = set() if os.environ.get("C12_NO_KF") else {"KF_B64_ENC_NUL", "KF_B64_DEC_NUL", "KF_BUF2ARGS_NUL", "KF_ASN_TAG_INDEX", "KF_ASN_SHORT_LEN", "KF_MEM_REPLACE_BOUNDS", "KF_BT_END_READ", "KF_BT_DICT_KEY", "KF_BT_LEN_WRAP", "KF_INI_GEN_BOUNDS"}   # known-finding blocking defines in force (see findings/*.md); removed once the fixes are in /repo
+KF = set()   # the other nine were repaired in /repo (known_findings.json: fixed)   # KF_INI_GEN_BOUNDS lifted: fixed in /repo by 8cdc02c   # known-finding blocking defines in force (see findings/*.md); removed once the fixes are in /repo
 
 def J(name, src, defs, unwind, shape, desc, **kw):
     d = {"name": name, "src": src, "defs": dict(defs), "unwind": unwind, "solver": SOLVER, "shape": shape, "desc": desc}
@@ -70,14 +117,13 @@ def mem_jobs(tier):
             out.append(J("mem-cmp-L%d-N%d" % (L, L2), "mem.c", {"FN": 5, "LEN": L, "LEN2": L2}, L + L2 + 40,
                          "mem_cmp/cmpn/cmpi/cmpin, mem_to_lower/upper, mem_dup2, realloc_items: buffers of %d and %d bytes" % (L, L2),
                          "object bounds; realloc_items leaves room for the next item"))
-        for L2 in ((1, 2, 3, 4) if tier == "thorough" else (1, 2, 3)):
-            out.append(J("mem-stream-L%d-N%d" % (L, L2), "mem.c", {"FN": 3, "LEN": L, "LEN2": L2}, 2 * (L + L2) + 6,
-                         "mem_find_stream: chunk %d bytes, pattern %d bytes, any carried state" % (L, L2),
-                         "object bounds of chunk and pattern, state < pattern size, end offset inside chunk, termination"))
-        if L <= (5 if tier == "thorough" else 4):
-            out.append(J("mem-replace-L%d" % L, "mem.c", kf({"FN": 4, "LEN": L}, "KF_MEM_REPLACE_BOUNDS"), 3 * L + 8,
-                         "mem_replace_arr: %d source bytes, rules 'ab'->1 byte and <byte>->3 bytes, capacities 0..3*LEN+1" % L,
-                         "object bounds, ENOBUFS + required size when too small, required size suffices"))
+    # mem_find_stream: goto-built loops; CBMC counts iterations per traversal, not per path, so unwinding assertions only
+    # pass for these small shapes [measured: L=2,N=3 and L=3,N=3 still fail their unwinding assertion at bound 5 / 112 s]
+    for L, L2, u in ((1, 1, 3), (1, 2, 3), (1, 3, 3), (2, 1, 3), (2, 2, 3), (3, 1, 4), (3, 2, 4)):
+        if tier == "quick" and (L, L2) in ((3, 2), (1, 3)): continue
+        out.append(J("mem-stream-L%d-N%d" % (L, L2), "mem.c", {"FN": 3, "LEN": L, "LEN2": L2}, u,
+                     "mem_find_stream: chunk %d bytes, pattern %d bytes, any carried state" % (L, L2),
+                     "object bounds of chunk and pattern, state < pattern size, end offset inside chunk, termination"))
     return out
 
 NUMT = ["usize", "u8", "u16", "u32", "u64", "ssize", "s8", "s16", "s32", "s64"]
@@ -85,8 +131,8 @@ NUMT = ["usize", "u8", "u16", "u32", "u64", "ssize", "s8", "s16", "s32", "s64"]
 def small_jobs(tier):
     out = []
     noarith = ["--no-signed-overflow-check", "--no-undefined-shift-check"]
-    for fam, lens in (("strh2", (0, 1, 5) if tier == "quick" else (0, 1, 2, 5, 9, 18)),
-                      ("str2", (0, 1, 5) if tier == "quick" else (0, 1, 2, 5, 9, 22))):
+    for fam, lens in (("strh2", (0, 5) if tier == "quick" else (0, 1, 2, 5, 9, 18)),
+                      ("str2", (0, 5) if tier == "quick" else (0, 1, 2, 5, 9, 22))):
         for t in NUMT:
             for pre, ch in (("", "char"), ("u", "uint8_t")):
                 for L in lens:
@@ -117,22 +163,76 @@ def bt_jobs(tier):
     excl = "pointer relation"
     def us(L, K, R):
         return ["bt_en_decode_top.%d:%d" % (i, K) for i in range(4)] + ["bt_en_free:%d" % R, "bt_en_free.0:%d" % (K if R > 1 else 1), "bt_en_free.1:%d" % (K if R > 1 else 1)]
-    for L in ((0, 1, 2, 3, 4, 5, 6) if tier == "quick" else (0, 1, 2, 3, 4, 5, 6, 7, 8)):
+    for L in ((0, 1, 2, 3, 4) if tier == "quick" else (0, 1, 2, 3, 4, 5, 6, 7)):
         out.append(J("bt-dec-L%d" % L, "bt.c", kf({"FN": 1, "LEN": L}, *BTKF), L + 3,
                      "bt_en_decode body on %d arbitrary bytes; nested calls = contract stub (induction on nesting depth)" % L,
                      "object bounds, nested calls stay inside the buffer, <= LEN+1 nested calls, result obeys the contract",
-                     unwindset=us(L, L + 2, 1), prop_exclude=excl, timeout=300, flags=["--no-malloc-may-fail"]))
-    for L in ((3, 4, 5) if tier == "quick" else (3, 4, 5, 6, 7)):
+                     unwindset=us(L, L + 2, 1), prop_exclude=excl, timeout=300, flags=["--no-malloc-may-fail"], cost=30 * L))
+    for L in ((3,) if tier == "quick" else (3, 4, 5, 6)):
         out.append(J("bt-flat-L%d" % L, "bt.c", kf({"FN": 1, "LEN": L, "MAXCONT": 1}, *BTKF), L + 3,
                      "as bt-dec-L%d, inputs with at most one 'l'/'d' byte (nested items are strings / integers, for which the stub is byte-exact)" % L,
                      "same obligations; counterexamples of this shape replay against the real recursive function",
-                     unwindset=us(L, L + 2, 1), prop_exclude=excl, timeout=300, flags=["--no-malloc-may-fail"]))
-    for L in ((22,) if tier == "quick" else (21, 22, 23)):
+                     unwindset=us(L, L + 2, 1), prop_exclude=excl, timeout=300, flags=["--no-malloc-may-fail"], cost=30 * L))
+    for L in (() if "KF_BT_LEN_WRAP" in KF else (22,)):   # the shape IS the known finding's input class: vacuous while blocked
         out.append(J("bt-strlen-L%d" % L, "bt.c", kf({"FN": 1, "LEN": L, "DIGIT0": None, "NEARMAX": None}, *BTKF), L + 3,
                      "bt_en_decode on %d bytes: '<%d digits>:' + one byte, length value within 2^32 of SIZE_MAX" % (L, L - 2),
                      "as bt-dec; reaches the 20-digit lengths around SIZE_MAX",
                      unwindset=us(L, 2, 1), prop_exclude=excl, timeout=300, flags=["--no-malloc-may-fail"]))
     return out
 
+def xml_jobs(tier):
+    out = []
+    for fn, nm in ((1, "get"), (2, "getns")):
+        for L in ((2, 3) if tier == "quick" else (1, 2, 3, 4, 5)):
+            for nt in ((1,) if tier == "quick" else (1, 2)):
+                out.append(J("xml-%s-L%d-T%d" % (nm, L, nt), "xmlget.c", kf({"FN": fn, "LEN": L, "NTAG": nt}, "KF_XML_GET_VAL"), 4,
+                             "xml_get_val%s_arr: %d arbitrary bytes, %d one-byte tag names, exactly sized tag arrays; call + resumed call" % ("_ns" if fn == 2 else "", L, nt),
+                             "object bounds (data, tag arrays), result spans inside the data, progress of next_pos",
+                             unwindset=["xml_get_val_arr.%d:%d" % (i, L + 2) for i in range(3)] + ["xml_get_val_ns_arr.%d:%d" % (i, L + 2) for i in range(3)] +
+                                       ["memchr.0:%d" % (L + 2), "memmem.0:5", "memmem.1:%d" % (L + 2), "memcmp.0:10", "harness.0:%d" % (L + 2), "harness.1:%d" % (L + 2)],
+                             timeout=300, prop_exclude="same object violation|pointer NULL in \\*next_pos", cost=100 * L))
+    return out
+
+def xmlcodec_jobs(tier):
+    out = []
+    kfm = "KF_MEM_REPLACE_BOUNDS" in KF
+    def minneed_dec(L):   # fewest output bytes of an L-byte input: entities of 4/5/6 bytes give 1 byte, anything else 1:1
+        best = [0] * (L + 1)
+        for n in range(1, L + 1):
+            best[n] = min(best[n - k] + 1 for k in (1, 4, 5, 6) if k <= n)
+        return best[L]
+    for fn, nm in ((1, "encode"), (2, "decode")):
+        if fn == 1: lens = (1, 2) if tier == "quick" else (0, 1, 2, 3)     # L=3: 160-190 s per capacity [measured]
+        else: lens = (4, 5) if tier == "quick" else (1, 4, 5, 6, 7)         # entities need >= 4 bytes; L=6: 145 s [measured]
+        for L in lens:
+            lo, hi = (L, 6 * L) if fn == 1 else (minneed_dec(L), L)       # smallest / largest possible required size
+            if kfm:   # blocked class: capacity < required + 6
+                caps = sorted(set([lo + 6, lo + 7, hi + 6, hi + 7]))
+            elif tier == "quick":
+                caps = sorted(set([0, 1, lo, lo + 1, hi, hi + 1]))
+            else:
+                caps = list(range(0, hi + 2))
+            for cap in caps:
+                out.append(J("xml-%s-L%d-C%d" % (nm, L, cap), "xmlcodec.c", kf({"FN": fn, "LEN": L, "CAP": cap}, "KF_MEM_REPLACE_BOUNDS"), L + 3,
+                             "xml_%s (mem_replace_arr, 5 entity rules): %d arbitrary source bytes, capacity %d" % (nm, L, cap),
+                             "object bounds, ENOBUFS + required size when too small, required size suffices and is produced",
+                             unwindset=["mem_replace_arr.0:6", "mem_replace_arr.1:6", "mem_replace_arr.2:6", "mem_replace_arr.3:%d" % (L + 2),
+                                        "memmem.0:7", "memmem.1:%d" % (L + 2), "memcmp.0:8", "harness.0:%d" % (L + 2), "harness.1:%d" % (L + 2)],
+                             timeout=300, cost=20))
+    return out
+
+def ini_jobs(tier):
+    out = []
+    shapes = ((1, (0, 3)), (2, (4,))) if tier == "quick" else ((1, (0, 1, 2, 3, 4)), (2, (0, 2, 3, 4, 5, 6, 7)))
+    for L, caps in shapes:
+        for cap in caps:
+            if "KF_INI_GEN_BOUNDS" in KF and cap == 1: continue
+            out.append(J("ini-L%d-C%d" % (L, cap), "inibuf.c", kf({"LEN": L, "CAP": cap}, "KF_INI_GEN_BOUNDS"), L + 3,
+                         "ini_buf_parse on %d arbitrary bytes, ini_buf_calc_size, ini_buf_gen into %d bytes, ini_destroy" % (L, cap),
+                         "object bounds (lines, pointer array, output), names/values inside their line, calc_size == sum, gen never overruns, exact size suffices",
+                         unwindset=["v_calloc.0:%d" % (L + 2)], flags=["--slice-formula"], timeout=400, mem_gb=10, cost=300 * L))
+    return out
+
 def jobs(tier):
-    return b64_jobs(tier) + bufstr_jobs(tier) + mem_jobs(tier) + small_jobs(tier) + bt_jobs(tier)
+    return (b64_jobs(tier) + bufstr_jobs(tier) + mem_jobs(tier) + small_jobs(tier) + bt_jobs(tier) + xml_jobs(tier) +
+            xmlcodec_jobs(tier) + ini_jobs(tier))
